@@ -26,7 +26,7 @@ RULE = ("seeded histories of 1-8 steps over harvest_combos (incl. Ellipsis), har
         "prefix; non-trivial from the second step on")
 ASSUMPTIONS = [
     "attributes of merged datasets are not judged (xarray's merge decides them); values, labels and variables are",
-    "sync=False steps are generated for memory-only harvesters, before the file exists, and as runs that end in a step which saves the current memory (drop_sel / expand_dims / save_full_ds); an un-synced step followed directly by a synced harvest is not generated (its load-before semantics discard the un-synced data by design)",
+    "sync=False steps are generated for memory-only harvesters, before the file exists, and as runs of one session (possibly a brand-new one) that end in a synced harvest or in drop_sel / expand_dims / save_full_ds(); while a run is open no OTHER session acts (what is only in one session's memory cannot be on disk yet, so 'memory equals disk' is judged when the run has ended)",
     "after a bare save_merge_ds on the harvester's file the next step runs in a new session (a live Harvester caches full_ds)",
 ]
 SHARDS = {"quick": 8, "thorough": 16}
@@ -41,7 +41,8 @@ MIN_REACH = {
     "lazily_chunked_harvesters": {"quick": 15, "thorough": 300},
     "histories_naming_the_engine_at_every_call": {"quick": 4, "thorough": 80},
     "harvests_with_chunks_named_at_the_call": {"quick": 5, "thorough": 100},
-    "memory_persisted_after_unsynced_steps": {"quick": 12, "thorough": 200},
+    "memory_persisted_after_unsynced_steps": {"quick": 6, "thorough": 100},
+    "synced_harvests_right_after_unsynced_ones": {"quick": 6, "thorough": 100},
     "unsynced_steps_before_first_save": {"quick": 25, "thorough": 400},
 }
 TIME_BUDGET = {"quick": 400, "thorough": 3400}
@@ -146,14 +147,24 @@ def cases(ctx):
             at = rng.randint(prefix + 1, len(steps))        # (after the first synced step, which creates the file)
             nrun = rng.randint(1, 2)
             ins = []
-            for _ in range(nrun):
+            for k_ in range(nrun):
+                # (the run may begin in a brand-new session: its memory then starts from what is on disk)
                 st_ = {"op": rng.choice(["combos", "cases", "add_ds"]), "policy": rng.choice([None, True, False]), "version": 0,
-                       "new_session": False, "reuse_old": False, "nosync": True,
+                       "new_session": k_ == 0 and rng.random() < 0.3, "reuse_old": False, "nosync": True,
                        "a": rng.sample(A_VALS, rng.randint(1, 2)), "b": rng.sample(B_VALS, rng.randint(1, 2)), "c": [C_VALS[0]]}
                 st_["pts"] = rng.sample([(a, b) for a in A_VALS for b in B_VALS], rng.randint(1, 3))
                 ins.append(st_)
-            ins.append({"op": "persist", "policy": None, "version": 0, "new_session": False, "reuse_old": False,
-                        "a": [1], "b": ["u"], "c": [C_VALS[0]], "how": rng.choice(["drop_sel", "drop_sel", "expand", "save"])})
+            if rng.random() < 0.5:
+                ins.append({"op": "persist", "policy": None, "version": 0, "new_session": False, "reuse_old": False,
+                            "a": [1], "b": ["u"], "c": [C_VALS[0]], "how": rng.choice(["drop_sel", "drop_sel", "expand", "save"])})
+            else:
+                # ... or simply by the next harvest that syncs (sync on/off mixed freely): its load-before must not discard
+                # what the un-synced harvests put into memory
+                st_ = {"op": rng.choice(["combos", "cases", "add_ds"]), "policy": rng.choice([True, False]), "version": 0,
+                       "new_session": False, "reuse_old": False, "after_nosync": True,
+                       "a": rng.sample(A_VALS, rng.randint(1, 2)), "b": rng.sample(B_VALS, rng.randint(1, 2)), "c": [C_VALS[0]]}
+                st_["pts"] = rng.sample([(a, b) for a in A_VALS for b in B_VALS], rng.randint(1, 3))
+                ins.append(st_)
             steps[at:at] = ins
         kind = rng.choice(["float", "multi:s,a3", "int", "intfloat", "intfloat", "nearfloat", "nearfloat"])
         if kind == "intfloat":
@@ -349,6 +360,8 @@ def run_case(ctx, case):
             ctx.count("harvests_with_chunks_named_at_the_call")
         if st.get("nosync"):
             ctx.count("unsynced_steps_after_the_file_exists")
+        if st.get("after_nosync"):
+            ctx.count("synced_harvests_right_after_unsynced_ones")
         if not sync and not case["mem_only"]:
             ctx.count("unsynced_steps_before_first_save")
         if (st["new_session"] or force_new) and not case["mem_only"]:
@@ -357,7 +370,10 @@ def run_case(ctx, case):
             ctx.count("new_sessions")
             force_new = False
         elif (st.get("reuse_old") and len(alive) > 1 and not case["mem_only"] and state["ever_saved"]
-              and op in ("combos", "cases", "add_ds", "save_fails")):
+              and (op in ("combos", "cases", "add_ds", "save_fails")
+                   # (a drop / expansion that has nothing to act on is skipped below: an idle older session just holds an old copy)
+                   or (op == "drop_sel" and model and [l for l in st["labels"] if l in axes[st["dim"]]])
+                   or (op == "expand" and model and "c" not in dims))):
             # an OLDER, still open Harvester harvests again after other sessions wrote to the file: its synced add
             # re-loads the file first, so nothing the others added may be lost (its cached copy is stale by now)
             h = alive[ctx.rng("old", istep, len(alive)).randrange(len(alive) - 1)]
@@ -479,12 +495,7 @@ def run_case(ctx, case):
                             model[(10,) + c] = model.pop(c)
                     else:
                         desc = "save_full_ds() after un-synced harvests"
-                        if h.full_ds is not None and lazyish:
-                            # (a bare save_full_ds() of a lazily chunked harvester writes over the very file its arrays
-                            #  read from, which HDF5 refuses loudly; handing the dataset over is the form that can work)
-                            desc = "save_full_ds(full_ds) after un-synced harvests"
-                            h.save_full_ds(h.full_ds)
-                        elif h.full_ds is not None:
+                        if h.full_ds is not None:
                             h.save_full_ds()
                     ctx.count("memory_persisted_after_unsynced_steps")
                 elif op == "drop_sel":
